@@ -24,7 +24,7 @@ KEYS = ["absent", "right", "wrong", "len23", "nopad", "badsym", "len25", "onepad
 CMODES = ["absent", "0", "1", "2", "3", "4", "5", "-1", "256", "abc", "127"]
 HMODES = ["absent", "0", "1", "2", "3", "abc"]
 NS = ["absent", "n"]
-EXTRAS = ["none", "unknown", "missingarg", "repeat-input", "repeat-cmode", "repeat-key", "dashdash-stray", "positional"]
+EXTRAS = ["none", "unknown", "missingarg", "repeat-input", "repeat-cmode", "repeat-key", "dashdash-stray", "positional", "key-then-badkey", "input-then-missing"]
 DIMS = [MODES, INS, OUTS, KEYS, CMODES, HMODES, NS, EXTRAS]
 DIMNAMES = ["mode", "in", "out", "key", "cmode", "hmode", "noecho", "extra"]
 
@@ -132,6 +132,10 @@ def make_argv(vec, fx, rundir):
         a += ["--cmode", "1", "--cmode", "2"] if cm == "absent" else ["--cmode", cm]
     elif extra == "repeat-key" and info["key"]:
         a += ["-k", info["key"]]
+    elif extra == "key-then-badkey":  # a later malformed value after an earlier good one: error paths that release what the first occurrence acquired
+        a += ["-k", "AAAA"]
+    elif extra == "input-then-missing":
+        a += ["-i", os.path.join(rundir, "no-such-second-input")]
     elif extra == "dashdash-stray":
         a += ["--", "stray-argument"]
     elif extra == "positional":
@@ -165,7 +169,7 @@ def well_formed(vec):
     return True
 
 
-UNDOCUMENTED_EXTRAS = ("repeat-input", "repeat-cmode", "repeat-key", "dashdash-stray", "positional")
+UNDOCUMENTED_EXTRAS = ("repeat-input", "repeat-cmode", "repeat-key", "dashdash-stray", "positional", "key-then-badkey", "input-then-missing")
 
 
 def must_fail(vec):
